@@ -20,7 +20,12 @@ Cat == {
   Ok(<<>>, << Svc(<<5>>, <<T(1)>>) >>),                                        \* bad cipher in the first service
   [kind |-> "unreadable", legacy |-> <<>>, svcs |-> <<>>],
   [kind |-> "malformed", legacy |-> <<>>, svcs |-> <<>>],
-  [kind |-> "invalid", legacy |-> <<>>, svcs |-> << Svc(<<1>>, <<T(1), T(1)>>) >>],
+  Ok(<<>>, << Svc(<<1>>, <<T(1), T(1)>>) >>),                                  \* invalid: the same listener twice in one service
+  Ok(<<>>, << Svc(<<1>>, <<T(1), U(1)>>), Svc(<<2>>, <<T(2), U(1)>>) >>),      \* invalid: a listener of two services
+  Ok(<<>>, << Svc(<<1>>, <<T(1), <<"quic", 2>>>>) >>),                          \* invalid: unsupported listener type
+  Ok(<<>>, << Svc(<<2>>, <<U(11)>>) >>),                                       \* invalid: host is not an IP
+  Ok(<<>>, << Svc(<<3>>, <<T(2)>>), Svc(<<1>>, <<T(12)>>) >>),                  \* invalid: address without a port
+  Ok(<<>>, << Svc(<<1, 2>>, <<T(13), U(1)>>) >>),                               \* invalid: empty host
   Ok(<< <<4, 1>>, <<4, 2>>, <<5, 3>> >>, <<>>),
   Ok(<< <<4, 6>> >>, << Svc(<<1>>, <<T(1), U(1)>>) >>),
   Ok(<< <<4, 1>>, <<5, 5>> >>, <<>>),                                          \* bad cipher among the legacy keys
